@@ -44,6 +44,10 @@ def check_tables(ctx, num=1):
     fn = None
     if len(dw) == 1:
         a = norm.kwarg(dw[0], "fieldnames", 1)
+        if isinstance(a, ast.Call) and isinstance(a.func, ast.Name) and a.func.id in ("list", "tuple") and len(a.args) == 1:
+            a = a.args[0]
+        if isinstance(a, ast.Name):   # a module-level constant
+            a = P.mod(CSV).module_assigns().get(a.id, a)
         if isinstance(a, (ast.List, ast.Tuple)) and all(isinstance(e, ast.Constant) for e in a.elts):
             fn = [e.value for e in a.elts]
     ctx.ob(num, "K5", "the writer's header lists the same columns as the row type, in the same order", fn == fields, wi, dw[0] if dw else wi.node, construct="DictWriter(fieldnames=...)", detail=f"{fn}")
@@ -200,8 +204,17 @@ def check_flows(ctx, dct, wr, pr, rp, num=2):
             pj = norm.subst(par, le) if par is not None else None
             par_ok = False
             if isinstance(pj, ast.Call) and isinstance(pj.func, ast.Attribute) and pj.func.attr == "join" and isinstance(pj.func.value, ast.Constant) and pj.func.value.value == ";" \
+                    and len(pj.args) == 1 and isinstance(pj.args[0], ast.ListComp):
+                ldef = pj.args[0]
+                if len(ldef.generators) == 1 and not ldef.generators[0].ifs and isinstance(ldef.generators[0].target, ast.Name) and norm.U(ldef.generators[0].iter) == f"{ov}.parents":
+                    par_ok = norm.U(ldef.elt) == f"f'op{{{norm.U(lst)}.index({ldef.generators[0].target.id}) + 1}}'"
+            if isinstance(pj, ast.Call) and isinstance(pj.func, ast.Attribute) and pj.func.attr == "join" and isinstance(pj.func.value, ast.Constant) and pj.func.value.value == ";" \
                     and len(pj.args) == 1 and isinstance(pj.args[0], ast.Name):
                 L = pj.args[0].id
+                ldef = le.get(L)
+                if isinstance(ldef, ast.ListComp) and len(ldef.generators) == 1 and not ldef.generators[0].ifs and isinstance(ldef.generators[0].target, ast.Name) \
+                        and norm.U(ldef.generators[0].iter) == f"{ov}.parents":
+                    par_ok = norm.U(ldef.elt) == f"f'op{{{norm.U(lst)}.index({ldef.generators[0].target.id}) + 1}}'"
                 apps = [c for c in ast.walk(lp) if isinstance(c, ast.Call) and isinstance(c.func, ast.Attribute) and c.func.attr == "append" and norm.is_name(c.func.value, L)]
                 if len(apps) == 1:
                     pl_ = enclosing_for(apps[0], tr.node)
@@ -209,7 +222,7 @@ def check_flows(ctx, dct, wr, pr, rp, num=2):
                         ple = loop_env(pl_)
                         got = norm.U(norm.subst(apps[0].args[0], ple))
                         d_got = got
-                        par_ok = got == f"f'op{{{norm.U(lst)}.index({pl_.target.id}) + 1}}'"
+                        par_ok = par_ok or got == f"f'op{{{norm.U(lst)}.index({pl_.target.id}) + 1}}'"
             oknum = order_ok and id_ok and par_ok
             d = f"operator list in creation order (node_lookup.values()): {order_ok}; operator_id = op<i+1>: {id_ok}; parents = ';'-joined op<index of parent + 1> in parent order: {par_ok}"
         ctx.ob(4, "K6", "operators are numbered op<i+1> by their position in the pipeline's creation-order list, and parent references use the parent's position in that same list",
@@ -219,6 +232,17 @@ def check_flows(ctx, dct, wr, pr, rp, num=2):
         okc = False
         if cs is not None and isinstance(cs, ast.Name):
             nm = cs.id
+            g = cfg_of(tr, subst_env=False)
+            nd = [n for n in ast.walk(lp) if isinstance(n, ast.Assign) and norm.is_name(n.targets[0], nm)]
+            if len(nd) == 1 and isinstance(nd[0].value, ast.Call) and norm.is_name(nd[0].value.func, "next") and len(nd[0].value.args) == 2 \
+                    and isinstance(nd[0].value.args[1], ast.Constant) and nd[0].value.args[1].value is None and isinstance(nd[0].value.args[0], ast.GeneratorExp):
+                ge = nd[0].value.args[0]
+                gen = ge.generators[0]
+                if norm.U(gen.iter) == "Segment.SCALING_FUNCS.items()" and isinstance(gen.target, ast.Tuple) and len(gen.ifs) == 1:
+                    kn, fnv = (x.id for x in gen.target.elts)
+                    okeq = norm.is_name(ge.elt, kn) and norm.nnf(gen.ifs[0]) == norm.mk_cmp("==", fnv, f"{segn}.scaling_func")
+                    raises = [n for n in ast.walk(lp) if isinstance(n, ast.If) and norm.nnf(n.test) == ("cmp", "is", nm, "None") and any(isinstance(x, ast.Raise) for x in n.body)]
+                    okc = okeq and len(raises) == 1 and g.dominates(raises[0], ys[0])
             fl = [n for n in ast.walk(lp) if isinstance(n, ast.For) and norm.U(n.iter) == "Segment.SCALING_FUNCS.items()"]
             if len(fl) == 1 and isinstance(fl[0].target, ast.Tuple):
                 kn, fnv = (x.id for x in fl[0].target.elts)
@@ -226,7 +250,7 @@ def check_flows(ctx, dct, wr, pr, rp, num=2):
                 sets = [n for n in ast.walk(fl[0]) if isinstance(n, ast.Assign) and norm.is_name(n.targets[0], nm) and norm.is_name(n.value, kn)]
                 okeq = bool(sets) and all(norm.entails(g.facts_at(n), norm.mk_cmp("==", fnv, f"{segn}.scaling_func")) for n in sets)
                 raises = [n for n in ast.walk(lp) if isinstance(n, ast.If) and norm.nnf(n.test) == ("cmp", "is", nm, "None") and any(isinstance(x, ast.Raise) for x in n.body)]
-                okc = okeq and len(raises) == 1 and g.dominates(raises[0], ys[0])
+                okc = okc or (okeq and len(raises) == 1 and g.dominates(raises[0], ys[0]))
         ctx.ob(5, "K2", "the scaling law is written by the name under which the segment's function is registered; a function without a name is refused (raise)", okc, tr, ys[0],
                construct="reverse lookup of cpu_scaling", detail=f"cpu_scaling={norm.U(cs) if cs is not None else None}")
     # reader side of the numbering
